@@ -183,6 +183,9 @@ LAYOUTS = [
     'import {a} . {b} as {c}', 'import {a}.{b}\nimport {a} . {b}\n{a}.{b}', 'from {a} . {b} import {c}',
     # a '#' inside a string literal earlier on the line of the binding
     "x = '#'; import {a}", "if x == '#': from {a} import {b} as {c}", 'def {a}({b}="#"): import {c}',
+    # a bracketed list broken one name per line whose LATER alias equals the module name
+    'from {a} import (\n    {b},\n    {c},\n    {a},\n)', 'from {a} import (\n    {b} as {c},\n    {d},\n    {a} as {b},\n)\n{a}',
+    'from {a}.{b} import (\n    {c},\n    {d},\n    {b},\n    {a},\n)',
     # names at column 0 of a continuation line
     'import {a}, \\\n{b}', 'from {a} import (\n{b},\n{c})', 'def \\\n{a}(): pass', 'class \\\n{a}: pass',
 ]
@@ -248,6 +251,8 @@ def goto_failures(ctx, fn, text):
         return 0, []
     lines = split_lines(text)
     reads = [n for n in ast.walk(tree) if isinstance(n, ast.Name) and isinstance(n.ctx, ast.Load)]
+    self_imports = set((a.asname or a.name.split('.')[0]) for n in ast.walk(tree) if isinstance(n, (ast.Import, ast.ImportFrom))
+                       for a in n.names)
     ctx.rng.shuffle(reads)
     bad = []
     n = 0
@@ -272,6 +277,10 @@ def goto_failures(ctx, fn, text):
                     # a star-imported name has no identifier token of its own: its position is the `*`
                     ok = 1 <= l <= len(lines) and (lines[l - 1][c:c + len(node.id)] == node.id or lines[l - 1][c:c + 6] == 'except'
                                                    or lines[l - 1][c:c + 1] == '*')
+                    # a file that imports ITSELF (curses/__init__.py: `import _curses, curses`): the definition of a
+                    # module is the start of its file, which happens to be this file - not a binding position
+                    if not ok and (l, c) == (1, 0) and node.id in self_imports:
+                        ok = True
                     if not ok:
                         bad.append((node.id, (node.lineno, col, 'filename' if use_fn else 'no filename'), (l, c),
                                     lines[l - 1][max(0, c - 8):c + 16] if 1 <= l <= len(lines) else None))
